@@ -1,17 +1,19 @@
 SPECIFICATION MCSpec
-CONSTANT Variant = "two"
+CONSTANT Variant = "resubmit"
 CONSTANT StrictEvents = TRUE
 CONSTANT FixF5 = TRUE
 CONSTANT FixF26 = TRUE
 CONSTANT FixF27 = TRUE
-CONSTANT FixF28 = TRUE
+CONSTANT FixF28 = FALSE
 CONSTANT FixF23 = TRUE
 CONSTANT AddFirst = TRUE
 CONSTANT Procs = {"p1", "p2"}
 CONSTANT Jobs = {"a", "b"}
-CONSTRAINT NoDeath
+CONSTRAINT ResubBound
 INVARIANT TypeOK
 INVARIANT Capacity
+INVARIANT RunningHoldFile
+INVARIANT RunningUnderCapacity
 INVARIANT MutualExclusion
 INVARIANT ObserversSurvive
 INVARIANT Informed
